@@ -72,8 +72,8 @@ LEVEL_NOTE = ("The deciding runs use a model of OpenSSL's memory-BIO API (truste
               "cffi, pyOpenSSL itself absent). Bounded: <= 2 writes per side and the stated depths.")
 MIN = {"quick": {"states": 470000, "nontrivial": 380000, "outcomes": 15, "evaluations": 54000,
                  "conformance_transitions": 22000, "real_openssl_histories": 54000},
-       "thorough": {"states": 2000000, "nontrivial": 1500000, "outcomes": 15, "conformance_transitions": 90000,
-                    "real_openssl_histories": 200000}}
+       "thorough": {"states": 2700000, "nontrivial": 2200000, "outcomes": 15, "evaluations": 178000,
+                    "conformance_transitions": 100000, "real_openssl_histories": 178000}}
 ENGINE = "mc.bfs"
 
 MODES = ("direct", "push", "pull")
